@@ -6,6 +6,12 @@ package jmespath
 func VerifCompile() {
 	n := verifParam("N")
 	src := verifNondetBytes(n)
+	if verifHasParam("pre") {
+		// a symbolic middle between concrete text: reaches inside strings,
+		// brackets and calls at the cost of the symbolic bytes only
+		src = verifParamStr("pre") + src + verifParamStr("post")
+		n = len(src)
+	}
 	jp, err := Compile(src)
 	verifNote("err", err != nil)
 	verifAssert((jp != nil) == (err == nil), "C17:exactly-one-of-result-and-error")
